@@ -106,7 +106,7 @@ def extra(c):
     if not c.harness or "c34" not in c.drivers:
         return
     scen = list(SCENARIOS_THOROUGH if c.tier == "thorough" else SCENARIOS_QUICK)
-    scen += random_scenarios(c.seed, 6 if c.tier == "thorough" else 3)
+    scen += random_scenarios(c.seed, 4 if c.tier == "thorough" else 3)
     from concurrent.futures import ThreadPoolExecutor
 
     def sweep(job):
